@@ -664,11 +664,84 @@ def concurrent_write_leg(res, rng):
             ld.close()
 
 
+def many_hash_vars_leg(res, rng):
+    """hash maps with many variables, around the 255 / 256 boundary of the
+    one-byte key: if the library accepts the declaration and the program
+    loads, every variable is a cell of its own - written from Python and by
+    the program, no other variable changes"""
+    from ebpfcat.hashmap import HashMap
+    from ebpfcat.xdp import XDP
+    from .. import kern, prog
+    for nv in (rng.choice([200, 254, 255]), 256, 257, rng.choice([258, 300])):
+        h = HashMap()
+        ns = {"license": "GPL", "h": h}
+        for i in range(1, nv + 1):
+            ns[f"hv{i}"] = h.globalVar("I", 0)
+        picks = sorted({1, 2, nv, nv - 1, max(1, nv - 255), max(1, nv - 256),
+                        rng.randint(1, nv)})
+
+        def program(self):
+            # the program stores into the last variables only
+            for i in (nv, nv - 1):
+                self.r6 = 7000 + i
+                setattr(self, f"hv{i}", self.r6)
+            self.r0 = 2
+            self.exit()
+        ns["program"] = program
+        desc = dict(many_hash_variables=nv)
+        with kern.session() as sess:
+            try:
+                e = type("VfManyHash", (XDP,), ns)()
+                ld = prog.Loaded(e, sess)
+                ld.load()
+            except Exception as ex:
+                # refusing the declaration is no violation
+                res.count("hash_maps_with_many_variables_refused")
+                res.info.setdefault("many_variables_refused", []).append(
+                    [nv, type(ex).__name__])
+                continue
+            try:
+                res.case([desc], nontrivial=True)
+                res.count("hash_maps_with_many_variables_loaded")
+                why = None
+                try:
+                    for i in picks:
+                        setattr(e, f"hv{i}", 100 + i)
+                    got = {i: getattr(e, f"hv{i}") for i in picks}
+                    bad = [i for i in picks if got[i] != 100 + i]
+                    if bad:
+                        why = (f"after Python wrote 100+i into variables "
+                               f"{picks}, variable {bad[0]} reads "
+                               f"{got[bad[0]]}")
+                    else:
+                        ld.run_k(bytes(64))
+                        got = {i: getattr(e, f"hv{i}") for i in picks}
+                        want = {i: 7000 + i if i in (nv, nv - 1) else 100 + i
+                                for i in picks}
+                        bad = [i for i in picks if got[i] != want[i]]
+                        if bad:
+                            why = (f"after the program stored into variables "
+                                   f"{nv - 1} and {nv}, variable {bad[0]} "
+                                   f"reads {got[bad[0]]}, expected "
+                                   f"{want[bad[0]]}")
+                except Exception as ex:
+                    why = f"{type(ex).__name__}: {ex}"
+                if why:
+                    res.violation(
+                        "unexplained:hash-variables-alias-beyond-255",
+                        f"hash map with {nv} variables (accepted and "
+                        f"loaded): {why}", case=desc)
+            finally:
+                ld.close()
+
+
 def run_shard(params):
     res = Result()
     rng = random.Random(params["seed"] * 100151 + params["shard"])
     if params["shard"] < 4:
         concurrent_write_leg(res, rng)
+    if params["shard"] in (4, 5):
+        many_hash_vars_leg(res, rng)
     for i in range(params["n"]):
         check_case(gen_case(rng), res, use_v=True)
         if i % 4 == 0:
